@@ -159,7 +159,7 @@ def run(ctx):
             ctx.violation(kind, {'property': A.render_prop(p), 'realisation': how, 'expected': exp, 'observed': got,
                                  'oracle_reason': reason, 'message': str(o[1])[:160] if o[0] != 'ok' else None},
                           feats | {'shape:via-' + how}, shrinker)
-        if ctx.evaluations % 3000 < 3:
+        if ctx.counters['cases_judged'] % 300 == 1:
             ctx.sample({'property': A.render_prop(p), 'oracle': v, 'reason': reason,
                         'outcomes': {how: hplapi.exc_class(o) for how, o in results}})
 
